@@ -213,8 +213,8 @@ class Scheduler:
     ):
         self.chooser = chooser or SeqPreempt()
         self.tasks: list[Task] = []
-        self.now = float(start_time)
         self.t_start = float(start_time)
+        self.rel = 0.0  # virtual seconds since the start of the run, kept rounded to 1 us so that equal instants coincide
         self.time_cap = time_cap
         self.step_cap = step_cap
         self.step = 0
@@ -243,6 +243,10 @@ class Scheduler:
             # module-level lock of the cloned executor module: fresh per run (a crashed run may have died holding it)
             cf_thread._global_shutdown_lock = MLock()
             cf_thread._shutdown = False
+
+    @property
+    def now(self) -> float:
+        return self.t_start + self.rel
 
     # -- virtual randomness --------------------------------------------------------------
     def next_random(self) -> float:
@@ -314,7 +318,7 @@ class Scheduler:
         return self.outcome
 
     def dump(self) -> str:
-        lines = [f"now={self.now - self.t_start:.3f} step={self.step} aborting={self.aborting} reason={self.abort_reason}"]
+        lines = [f"now={self.rel:.3f} step={self.step} aborting={self.aborting} reason={self.abort_reason}"]
         frames = sys._current_frames()
         for t in self.tasks:
             lines.append(f"  {t!r} blocked_on={t.blocked_on} deadline={t.deadline}")
@@ -331,7 +335,7 @@ class Scheduler:
             elif t.state == "blocked":
                 if t.pred is not None and t.pred():
                     out.append(t)
-                elif t.deadline is not None and t.deadline <= self.now:
+                elif t.deadline is not None and t.deadline <= self.rel:
                     out.append(t)
         return out
 
@@ -355,11 +359,11 @@ class Scheduler:
                 self._abort("deadlock")
                 return self._pick(cur)
             nxt = min(deadlines)
-            if nxt - self.t_start > self.time_cap:
+            if nxt > self.time_cap:
                 self.deadlock_info = [(t.name, t.blocked_on) for t in live]
                 self._abort("time_cap")
                 return self._pick(cur)
-            self.now = max(self.now, nxt)
+            self.rel = max(self.rel, nxt)
         self.step += 1
         if self.step > self.step_cap:
             self._abort("step_cap")
@@ -445,7 +449,7 @@ class Scheduler:
             return False
         t.state = "blocked"
         t.pred = pred
-        t.deadline = None if timeout is None else self.now + timeout
+        t.deadline = None if timeout is None else round(self.rel + timeout, 6)
         t.blocked_on = what
         self._switch(t)
         t.blocked_on = ""
@@ -471,7 +475,7 @@ class Scheduler:
         return self.now
 
     def elapsed(self) -> float:
-        return self.now - self.t_start
+        return self.rel
 
 
 _BLOCKING_KINDS = {"api", "lock.acquire", "queue.get", "sem.acquire", "cond.wait", "event.wait", "join", "user"}
